@@ -74,6 +74,24 @@ func zvC05Configs(thorough bool) []*zvCfg {
 						off = append(off, &d)
 					}
 				}
+				if pol == "accept" || pol == "lp200" {
+					// an accepted path re-announced with attributes that make it ineligible (AS loop through the local AS):
+					// the accepted path must leave the Loc-RIB (a replacement is a withdrawal of what was there before)
+					d := *c
+					d.Vars = zvC05Vars(ibgp, 1)
+					lp := d.Vars[0]
+					lp.Name = "a1-loop"
+					lp.ID = 9
+					lp.Segs = []zvSeg{{false, append(append([]uint32{}, lp.Segs[0].ASNs...), zvLocalASN)}}
+					d.Vars = append(d.Vars, lp)
+					d.NPfx = 2
+					d.Name = fmt.Sprintf("addpath=%v ibgp=%v policy=%s (eligible and AS-loop attribute sets)", ap, ibgp, pol)
+					if ap {
+						on = append(on, &d)
+					} else {
+						off = append(off, &d)
+					}
+				}
 				if thorough && ap && (pol == "accept" || pol == "lp200") {
 					// three path identifiers per prefix
 					d := *c
